@@ -642,7 +642,7 @@ impl Model for DmlModel {
             out.extend(c(self.kind, s, r));
         }
         let mut seen = std::collections::HashSet::new();
-        out.retain(|f| seen.insert(f.sig.clone()));
+        out.retain(|f| seen.insert((f.sig.clone(), f.fixed_key.clone())));
         out
     }
     fn op_class(&self, op: &DOp) -> String {
